@@ -271,7 +271,7 @@ func init() {
 		},
 		Cases:        c11cases,
 		Batch:        10,
-		BatchTimeout: 20 * time.Minute,
+		BatchTimeout: 60 * time.Minute,
 		Run:          c11run,
 		Need:         []string{"queries", "rows_compared", "queries_empty_expected", "queries_nonempty_expected"},
 	})
